@@ -1,5 +1,5 @@
 PROP = {
-    "thm": ["Umya.Thm.C07", "Umya.Thm.C07Move"],
+    "thm": ["Umya.Thm.C07", "Umya.Thm.C07Move", "Umya.Thm.C07History"],
     "harness": "c07",
     "level": "proof",
     "stateful": True,
@@ -12,25 +12,44 @@ PROP = {
                   "merge scan, clean-up pass over every position of the rectangle and its image, paste by set_cell) does not panic, keeps coherence and commutes with "
                   "the reference moveRect / copyRect of Spec/Grid.lean through the same abstraction (C07_move_refines, C07_copy_refines); the property's clauses are "
                   "corollaries (C07_move_source_empty, C07_move_destination_exact, C07_copy_keeps_source, C07_move_elsewhere_unchanged, C07_move_copy_in_grid); row / column "
-                  "dimensions are kept in place, only appended to (C07_move_copy_dimensions_kept). All for unbounded sheets and positions. The model is tied to the code by "
+                  "dimensions are kept in place, only appended to (C07_move_copy_dimensions_kept). Whole histories: for EVERY list of edits (place / delete a cell, insert / remove rows / columns, "
+                  "move, copy: Spec/GridHistory.lean Edit, mapped to the Ops of the model's step) from a coherent in-grid store, if every edit's guard (a decidable predicate on the state it is applied "
+                  "to: placed cell inside the grid; n >= 1 lines inserted and no stored cell pushed over the grid limit; n >= 1 lines removed at p >= 1; InRange for move / copy) holds along the run, "
+                  "the run returns, the final store is coherent and inside the grid and content (run s ops) = specRun (content s) ops, the fold of the reference steps (C07_history_refines, by induction "
+                  "on the list from C07_step_refines); panics: a move / copy on a coherent store panics exactly when the image leaves the grid or the rectangle is inverted in (row, column) order "
+                  "(C07_move_copy_panic_iff), in the model a remove panics exactly when it is at position 0 with n >= 1 and a stored cell lies in a line below n (num - offset underflows), nothing else panics "
+                  "(C07_step_panic_iff with the decidable predicate Panics; C07_step_panic_only), a guarded edit never satisfies Panics (C07_guard_excludes_panic), and a history panics exactly when it splits "
+                  "as pre ++ e :: post with pre returning a state on which Panics holds for e (C07_history_panics_iff; C07_history_panic_exact: that state is coherent and e's guard is false there). Annotations: move_or_copy_range on the worksheet record (cell store, merges, comments, "
+                  "conditional formats, auto-filter) leaves the four annotation fields as they were and acts on the cell store as the modelled operation (C07_move_keeps_annotations; true by the shape "
+                  "of the model function wsMoveOrCopy, which like the Rust body names no field but the cell store - the substance is the tie). Hyperlinks: the content token is the pair (value, hyperlink) "
+                  "(pack, lossless: C07_set_obj_stores_hyperlink); after a move the image of every source position holds the hyperlink that position held, after a copy the image of every non-blank "
+                  "source position does, everything outside keeps its hyperlink (C07_move_carries_hyperlink, corollary of the refinement). All for unbounded sheets and positions. The model is tied to the code by "
                   "random multi-sheet histories with full dumps after every op, and the implementation is checked against an independent reference grid in the harness.",
     "level_note": "Trusted: Lean kernel + 3 standard axioms; the hand model as exercised by the correspondence stream; the harness' reference grid (oracle). "
                   "Cell content is an opaque token (value, or formula text: move_or_copy_range clones the cell and set_obj assigns cell_value whole, no reference inside "
                   "a moved formula is translated; the harness compares the formula text at the translated position character by character) plus a style token; "
-                  "hyperlinks travel with the cell in the code (set_obj) and are not in the model. "
+                  "the hyperlink of a cell is part of the content token (token = value token + 1000 * hyperlink token, Model/SheetA.lean; set_obj assigns cell_value, style and hyperlink whole, "
+                  "set_value keeps the hyperlink: setCellH / setValH); the dump has a field hl= (row.col.hyperlink of every cell with one) on both sides and the cells= field shows the value tokens; "
+                  "only the url of a hyperlink is compared (tooltip / location flag are cloned with it by the same Box clone; not observed). "
                   "Comments, conditional formats and the auto-filter under insert / remove are modelled and tied by correspondence + reference-grid oracle, "
                   "their whole-sheet refinement statement is not a Lean theorem (the per-range kernel lemma is); move_range / copy_range do not touch them "
-                  "(nor merged ranges): not a theorem, the model's move acts on the cell store only and the harness' reference compares the annotations after every move / copy.",
+                  "(nor merged ranges): C07_move_keeps_annotations states it for the model's worksheet-level function wsMoveOrCopy (the driver now runs move / copy through it), and the dump + the "
+                  "harness' reference compare the annotations after every move / copy. The history theorem covers the cell store; histories with annotation edits interleaved are tied only.",
     "expect_theorems": ["C07_kernels_match_source", "C07_insert_rows", "C07_insert_cols", "C07_remove_rows", "C07_remove_cols", "C07_remove_undoes_insert_rows",
                         "C07_remove_undoes_insert_cols", "C07_remove_keeps_positive", "C07_range_insert_rows", "C07_range_remove_rows",
                         "C07_range_remove_cols", "C07_other_sheets_untouched",
                         "C07_move_copy_are_steps", "C07_move_refines", "C07_copy_refines", "C07_move_source_empty", "C07_move_destination_exact",
                         "C07_destination_is_image", "C07_copy_keeps_source", "C07_move_elsewhere_unchanged", "C07_move_copy_in_grid",
-                        "C07_move_copy_dimensions_kept"],
-    "rule": "random histories (length 1..40 after seeding) on 1-3 sheets: workbook-level (by sheet name) and sheet-level insert/remove of rows/columns, "
+                        "C07_move_copy_dimensions_kept",
+                        "C07_step_refines", "C07_history_refines", "C07_history_content", "C07_move_copy_panic_iff", "C07_step_panic_only", "C07_history_panic_exact", "C07_step_panic_iff", "C07_guard_excludes_panic", "C07_history_panics_iff",
+                        "C07_move_keeps_annotations", "C07_move_annotations_panic", "C07_set_obj_stores_hyperlink", "C07_move_carries_hyperlink"],
+    "rule": "random histories (length 1..40 after seeding) on 1-3 sheets; one op in a hundred is an out-of-range move / copy (image off the grid by one or two lines, rectangle inverted on the row axis, "
+            "on the column axis of a one-row rectangle, empty column span of a two-row rectangle): no reference, panic allowed, reply (panic or dump) compared with the model, the case ends after it "
+            "(counters move-copy-out-of-range.panic / .returned); workbook-level (by sheet name) and sheet-level insert/remove of rows/columns, "
             "move_range, copy_range (offsets -3..3, one in five pushed against row 1 / column 1 or, next to the limit, row 1048576 / column 16384; counters mc.* for "
             "overlap / disjoint / zero offset, blank source position over an occupied destination cell, formula cells inside the rectangle, destination at a grid edge), "
-            "set/remove cell (one set_cell in four is a formula cell), with merged ranges, comments, conditional formats (1-2 ranges), auto-filter, row/column dimensions; "
+            "set/remove cell (one set_cell in four is a formula cell, one in three carries a hyperlink token 0..3 (setcellh; 0 = set_cell of a cell without hyperlink over whatever was there); "
+            "counters mc.*.hyperlink-in-rectangle, hl.sheet-with-hyperlinks-compared), with merged ranges, comments, conditional formats (1-2 ranges), auto-filter, row/column dimensions; "
             "positions 1..8 with bands covering whole objects / partially overlapping them, every tenth history next to the grid limit (XFD1048576), "
             "insert-then-remove pairs; after every op the dump of every sheet is compared with the model and with an independent reference grid. "
             "non-trivial = mutating op that returned; distinct = distinct request line",
@@ -38,9 +57,16 @@ PROP = {
                                  "std HashMap/BTreeSet semantics (modelled)", "VML note-box anchors of comments are not part of the model (their panic-freedom is checked by the harness only)"],
     "assumptions": ["p >= 1, n >= 1 (in-range arguments); coordinates below 2^32",
                     "ranges in merges/filters/conditional formats are full rectangles (both corners, both axes)"],
-    "partial_clauses": ["move_range/copy_range: the refinement theorems are about the cell store (value / formula token and style token per position, row and column dimensions); "
-                        "hyperlinks of moved cells (carried by set_obj in the code) are outside the model; that merges, comments, conditional formats and the auto-filter are "
-                        "left alone by a move / copy is checked by the reference-grid oracle only; a blank position is one without a stored cell (a stored cell with empty value "
+    "partial_clauses": ["exact panic condition of move / copy (C07_move_copy_panic_iff, Panics): tied to the code for stores holding at least one cell; for an inverted rectangle on a store WITHOUT cells "
+                        "the code's BTreeSet::range(start > end) panics only when the tree's root node is allocated (index emptied by remove_cell) and returns on a fresh index (after rebuild_map_and_indices), "
+                        "the model (coordsInRange of Model/Sheet.lean) says panic in both cases; the driver answers unmodelled there (found by the new out-of-range stream: 1 disagreement in 282 before)",
+                        "whole histories (C07_history_refines): the edits covered are set_cell / remove_cell / insert / remove rows / columns / move / copy on ONE sheet's cell store; get_cell_mut, set_value, set_style "
+                        "(whose result depends on row / column dimension styles, not on the content abstraction alone), cleanup and the style-copy operations are not edits of the history theorem "
+                        "(C10 proves coherence for them); the guard is sufficient, not necessary (an unguarded edit may still return: e.g. a move of an empty column span); the panic condition of a remove at position 0 "
+                        "(C07_step_panic_iff) is a statement about the model: the correspondence stream only generates positions >= 1, so that branch of the model is not tied to the code",
+                        "move_range/copy_range: the refinement theorems are about the cell store (value / formula token with the hyperlink token, style token per position, row and column dimensions); "
+                        "that merges, comments, conditional formats and the auto-filter are left alone by a move / copy is a theorem about the model function wsMoveOrCopy, true by its shape, "
+                        "and is tied to the code by the dump and the reference-grid oracle; of a hyperlink only the url is observed; a blank position is one without a stored cell (a stored cell with empty value "
                         "and default style counts as a cell and is moved / copied as such)",
                         "annotation lists (merges, comments, CF, filter): per-range theorem + correspondence; defined names and drawings under structural edits belong to C08 / are outside the model",
                         "grid upper bound: inserting next to the limit overflows the grid (known finding C07-grid-overflow; assessed after the formula-reference analogue was repaired in fae7c2b and left recorded: drop-vs-refuse is a design decision and the repair is not small, see why_not_fixed in known_findings.json)",
